@@ -11,7 +11,7 @@ for f in sorted(glob.glob('/verif/seeded/results/*')):
         if f.endswith('.md'):
             m = re.match(r'\| (C\d+-m\d) \| (C\d+) \| (\d+) \| `(.*)` \|', l)
             if m:
-                rows[m.group(1)] = (m.group(2), m.group(3), m.group(4), run)
+                rows[(m.group(1), m.group(2))] = (m.group(2), m.group(3), m.group(4), run)
             continue
         m = re.match(r'(\S*?)(C\d+-m\d)_patch_diff (C\d+) exit=(\d+) (.*)', l)
         if not m:
@@ -20,15 +20,17 @@ for f in sorted(glob.glob('/verif/seeded/results/*')):
         if rc not in ('0', '1', '2'):
             continue  # run interrupted
         v = re.search(r'VIOLATION property=\S+ replay=\S*/replay/(\S+?)\.json', rest)
-        rows[sid] = (prop, rc, v.group(1) if v else rest[:140], run)
+        rows[(sid, prop)] = (prop, rc, v.group(1) if v else rest[:140], run)
 out = ["# Seeded changes: result of the property's quick check with the change applied", "",
        "Produced by `bin/mutants` (scratch worktree of /repo HEAD + patch.diff, `symgo check <property> quick`); the logs are",
        "in `seeded/results/` and the last column names the run a row comes from (later runs replace earlier ones).",
        "exit 1 = VIOLATION reported after native reproduction, exit 0 = nothing reported, exit 2 = inconclusive.",
        "DESIGN.md 9.6 - 9.8 say which assertion catches which change and explain the changes that are not reported.", "",
-       "| change | property | exit | first reproduced assertion (harness.label.n) | run |", "|---|---|---|---|---|"]
-for sid in sorted(rows):
-    p, rc, v, run = rows[sid]
-    out.append(f"| {sid} | {p} | {rc} | `{v}` | {run} |")
+       "| change | checked property | exit | first reproduced assertion (harness.label.n) | run |", "|---|---|---|---|---|"]
+for key in sorted(rows):
+    p, rc, v, run = rows[key]
+    out.append(f"| {key[0]} | {p} | {rc} | `{v}` | {run} |")
 open('/verif/seeded/RESULTS.md', 'w').write("\n".join(out) + "\n")
-print(len(rows), "rows;", sum(1 for r in rows.values() if r[1] == '1'), "caught;", [s for s in sorted(rows) if rows[s][1] != '1'])
+ids = sorted({k[0] for k in rows})
+caught = {k[0] for k in rows if rows[k][1] == '1'}
+print(len(ids), "changes;", len(caught), "reported by at least one of the checks run on them; not reported:", [i for i in ids if i not in caught])
